@@ -1,7 +1,92 @@
-"""C13: tracker interval clamps, back-off table and controller timer constants, re-extracted from
-/repo on every run (see gen/params.py). A declaration that is no longer found yields 0 and the
-params_ok_now obligation of C13 fails."""
+"""C13: tracker interval clamps, back-off table, controller timer constants and event codes.
+
+The values are PROBED FROM THE COMPILED CODE of the tree under check (ROBUSTNESS.md rule 3):
+  * `harness/c13.cc --params` prints the static constants and enumerator values it was compiled against;
+  * behavioural constants (back-off table, promiscuous floor, the 3 s / 30 s controller timers, the scrape gap)
+    are measured by running the real TrackerController on short scripted histories (the harness' own T cases).
+The source-text regexes are kept only as a fallback when probing is impossible (harness does not build), and
+for `trk_udp_event_raw`, which is a statement about the text of tracker_udp.cc (it may legitimately be absent:
+the obligation event_codes_bep15 is conditional on it, the UDP wire cases check the codes behaviourally)."""
+import os
 import re
+import subprocess
+import sys
+
+_H = "src/torrent/tracker/tracker_state.h"
+_C = "src/torrent/tracker/tracker_state.cc"
+_T = "src/tracker/tracker_controller.cc"
+_U = "src/tracker/tracker_udp.cc"
+_L = "src/tracker/tracker_list.cc"
+_E = r"enum event_enum \{([^}]*)\}"
+
+_cache = {}
+
+
+def _run(binary, lines, args=()):
+    r = subprocess.run([binary] + list(args), input=("\n".join(lines) + "\n").encode(), stdout=subprocess.PIPE,
+                       stderr=subprocess.PIPE, timeout=120,
+                       env=dict(os.environ, ASAN_OPTIONS="detect_leaks=0"))
+    return r.stdout.decode().split("\n")[:-1]
+
+
+def _seg(line, i):
+    f = line.split(" | ")[i].split(" ")
+    return dict(now=int(f[0]), tmo=None if f[2] == "-" else int(f[2]), trs=f[5], scr=f[7])
+
+
+def probe():
+    """dict name -> int, or {} if the harness cannot be built / run against this tree"""
+    sys.path.insert(0, os.path.join(os.path.dirname(os.path.dirname(os.path.abspath(__file__))), "lib"))
+    import ltv
+    key = ltv.repo_tree_hash()
+    if key in _cache:
+        return _cache[key]
+    out = {}
+    try:
+        h = ltv.build_harness("c13", ["c13.cc"])
+        for l in _run(h, [], ["--params"]):
+            k, _, v = l.partition("=")
+            out[k] = int(v)
+        S = 1000000
+        # send_start_event with two usable trackers: promiscuous mode after N s
+        a = _run(h, ["T 0 G 2 0 0 ; en ss"])[0]
+        out["trk_start_promisc_timeout"] = (_seg(a, 1)["tmo"] - _seg(a, 1)["now"]) // S
+        # receive_success in requesting mode: next round after N s
+        a = _run(h, ["T 0 G 1 0 ; en rq ad:0 ok:0:1800:600:0"])[0]
+        out["trk_requesting_success_timeout"] = (_seg(a, 3)["tmo"] - _seg(a, 3)["now"]) // S
+        # requesting mode, success with a huge interval and the smallest min interval: wait = max(min interval, FLOOR)
+        a = _run(h, ["T 0 G 1 0 ; en ss ok:0:28800:0:0 rq ad:0"])[0]
+        out["trk_promisc_floor"] = (_seg(a, 4)["tmo"] - _seg(a, 4)["now"]) // S
+        # back-off table: k consecutive failures of the only tracker -> retry after table[k-1] s
+        ops = ["en", "ss"] + ["fl:0", "nx"] * 12
+        a = _run(h, ["T 0 G 1 0 ; " + " ".join(ops)])[0]
+        table = []
+        for k in range(12):
+            sg = _seg(a, 2 + 2 * k)
+            table.append((sg["tmo"] - sg["now"]) // S)
+        base, mm = table[0], out["trk_min_min_interval"]
+        cap = 0
+        while (base << cap) < mm and cap < 40:
+            cap += 1
+        if base > 0 and all(table[k] == min(base << min(k, cap), mm) for k in range(12)):
+            out["trk_backoff_base"], out["trk_backoff_shift_cap"] = base, cap
+        # scrape gap: smallest g such that a scrape is sent g s after the previous scrape reply (binary search)
+        def scraped(g):
+            a = _run(h, ["T 0 G 1 0s ; en sr:0 ad:0 ok:b:0:0:0 ok:b:0:0:0 ad:%d sr:0 ad:0" % (g * S)])[0]
+            return _seg(a, 7)["scr"] != "S"
+        lo, hi = 0, 1 << 17
+        if scraped(hi) and not scraped(lo):
+            while hi - lo > 1:
+                mid = (lo + hi) // 2
+                if scraped(mid):
+                    hi = mid
+                else:
+                    lo = mid
+            out["trk_scrape_min_gap"] = hi
+    except Exception as e:      # harness does not build / run: fall back to the source text
+        sys.stderr.write("[params_c13] probing failed (%s); falling back to source text\n" % (str(e)[:200],))
+    _cache[key] = out
+    return out
 
 
 def _prod(m):
@@ -11,12 +96,7 @@ def _prod(m):
     return v
 
 
-_H = "src/torrent/tracker/tracker_state.h"
-_C = "src/torrent/tracker/tracker_state.cc"
-_T = "src/tracker/tracker_controller.cc"
-
 def _enum_pos(name):
-    """position of an enumerator inside `enum event_enum { ... }` (enumerators without initialisers)"""
     def conv(m):
         names = [x.strip() for x in m.group(1).split(",") if x.strip()]
         if any("=" in x for x in names):
@@ -25,32 +105,42 @@ def _enum_pos(name):
     return conv
 
 
-_E = r"enum event_enum \{([^}]*)\}"
-_U = "src/tracker/tracker_udp.cc"
+def _probed(name, rx, conv=None):
+    """(regex, converter): the regex only has to locate the file; the value comes from the compiled code, the old
+    source-text extraction is the fallback"""
+    def f(m):
+        p = probe()
+        if name in p:
+            return p[name]
+        m2 = re.search(rx, m.string, flags=re.S)
+        if not m2:
+            raise ValueError("not found")
+        return conv(m2) if conv else int(m2.group(1))
+    return r"\A(.)", f
+
+
+def _entry(name, rel, rx, conv=None):
+    r, f = _probed(name, rx, conv)
+    return (name, rel, r, "Z", f)
+
 
 ENTRIES = [
-    # numeric values of TrackerState::event_enum; TrackerUdp::prepare_announce writes m_send_state raw as the
-    # BEP-15 event code (trk_udp_event_raw = 1 iff that line is still there)
-    ("trk_event_none", _H, _E, "Z", _enum_pos("EVENT_NONE")),
-    ("trk_event_completed", _H, _E, "Z", _enum_pos("EVENT_COMPLETED")),
-    ("trk_event_started", _H, _E, "Z", _enum_pos("EVENT_STARTED")),
-    ("trk_event_stopped", _H, _E, "Z", _enum_pos("EVENT_STOPPED")),
-    ("trk_udp_event_raw", _U, r"buffer\.write_32\((m_send_state)\);", "Z", lambda m: 1),
-    ("trk_default_min_interval", _H, r"\bdefault_min_interval\s*=\s*([\d\s*]+)s;", "Z", _prod),
-    ("trk_min_min_interval", _H, r"\bmin_min_interval\s*=\s*([\d\s*]+)s;", "Z", _prod),
-    ("trk_max_min_interval", _H, r"\bmax_min_interval\s*=\s*([\d\s*]+)s;", "Z", _prod),
-    ("trk_default_normal_interval", _H, r"\bdefault_normal_interval\s*=\s*([\d\s*]+)s;", "Z", _prod),
-    ("trk_min_normal_interval", _H, r"\bmin_normal_interval\s*=\s*([\d\s*]+)s;", "Z", _prod),
-    ("trk_max_normal_interval", _H, r"\bmax_normal_interval\s*=\s*([\d\s*]+)s;", "Z", _prod),
-    # failed_time_next():  shift = min(failed_counter - 1, uint32_t(CAP));  min((BASE << shift) * 1s, min_min_interval)
-    ("trk_backoff_shift_cap", _C, r"failed_counter - 1, uint32_t\((\d+)\)\)", "Z"),
-    ("trk_backoff_base", _C, r"std::min\(\((\d+) << shift\) \* 1s, min_min_interval\)", "Z"),
-    # TrackerList::send_scrape(): no scrape within N s of the last one
-    ("trk_scrape_min_gap", "src/tracker/tracker_list.cc", r"scrape_time_last\(\)\) \+ (\d+)s;", "Z"),
-    # tracker_next_timeout_promiscuous(): max(min_interval, FLOOR s)
-    ("trk_promisc_floor", _T, r"std::max\(tracker_state\.min_interval\(\), (\d+)s\)", "Z"),
-    # send_start_event(): second usable tracker -> promiscuous mode after N seconds
-    ("trk_start_promisc_timeout", _T, r"m_flags \|= flag_promiscuous_mode;\s*update_timeout\((\d+)\);", "Z"),
-    # receive_success(): requesting mode -> next round after N seconds
-    ("trk_requesting_success_timeout", _T, r"if \(\(m_flags & flag_requesting\)\)\s*update_timeout\((\d+)\);", "Z"),
+    _entry("trk_event_none", _H, _E, _enum_pos("EVENT_NONE")),
+    _entry("trk_event_completed", _H, _E, _enum_pos("EVENT_COMPLETED")),
+    _entry("trk_event_started", _H, _E, _enum_pos("EVENT_STARTED")),
+    _entry("trk_event_stopped", _H, _E, _enum_pos("EVENT_STOPPED")),
+    # statement about the source text (cross-check that may be absent)
+    ("trk_udp_event_raw", _U, r"\A(.)", "Z", lambda m: 1 if re.search(r"buffer\.write_32\((m_send_state)\);", m.string) else 0),
+    _entry("trk_default_min_interval", _H, r"\bdefault_min_interval\s*=\s*([\d\s*]+)s;", _prod),
+    _entry("trk_min_min_interval", _H, r"\bmin_min_interval\s*=\s*([\d\s*]+)s;", _prod),
+    _entry("trk_max_min_interval", _H, r"\bmax_min_interval\s*=\s*([\d\s*]+)s;", _prod),
+    _entry("trk_default_normal_interval", _H, r"\bdefault_normal_interval\s*=\s*([\d\s*]+)s;", _prod),
+    _entry("trk_min_normal_interval", _H, r"\bmin_normal_interval\s*=\s*([\d\s*]+)s;", _prod),
+    _entry("trk_max_normal_interval", _H, r"\bmax_normal_interval\s*=\s*([\d\s*]+)s;", _prod),
+    _entry("trk_backoff_shift_cap", _C, r"failed_counter - 1, uint32_t\((\d+)\)\)"),
+    _entry("trk_backoff_base", _C, r"std::min\(\((\d+) << shift\) \* 1s, min_min_interval\)"),
+    _entry("trk_scrape_min_gap", _L, r"scrape_time_last\(\)\) \+ (\d+)s;"),
+    _entry("trk_promisc_floor", _T, r"std::max\(tracker_state\.min_interval\(\), (\d+)s\)"),
+    _entry("trk_start_promisc_timeout", _T, r"m_flags \|= flag_promiscuous_mode;\s*update_timeout\((\d+)\);"),
+    _entry("trk_requesting_success_timeout", _T, r"if \(\(m_flags & flag_requesting\)\)\s*update_timeout\((\d+)\);"),
 ]
